@@ -1074,7 +1074,10 @@ func (f *Frame) siteHook(kind string, ins ssa.Instruction, st *State, extra map[
 			}
 			return base(name)
 		}
-		for i, a := range s.Asserts {
+		for _, act := range s.Order {
+		switch act.Kind {
+		case "assert":
+			i, a := act.Idx, s.Asserts[act.Idx]
 			ce := f.cenv(lookup, st.heap, f.entrySt.heap)
 			t, err := ce.evalBool(a.E)
 			if err != nil {
@@ -1082,8 +1085,66 @@ func (f *Frame) siteHook(kind string, ins ssa.Instruction, st *State, extra map[
 				continue
 			}
 			f.u.oblige("site", fmt.Sprintf("%s/at[%s]/%d.%d", f.u.name, s.Pattern, f.siteHit[s]-1, i), a.Text, f.u.eng.pos(ins.Pos()), st.reach, t)
-		}
-		for _, g := range s.Ghost {
+		case "use":
+			lu := s.Uses[act.Idx]
+			call, ok := lu.E.(*ECall)
+			if !ok {
+				f.errorf("site %q use: expected Lemma(args)", s.Pattern)
+				continue
+			}
+			var lm *Lemma
+			for n, l := range f.u.eng.cs.Lemmas {
+				if strings.ReplaceAll(n, "-", "_") == call.Fn {
+					lm = l
+				}
+			}
+			if lm == nil {
+				f.errorf("site %q use: unknown lemma %s", s.Pattern, call.Fn)
+				continue
+			}
+			q, ok := lm.Body.E.(*EQuant)
+			if !ok || !q.Forall || len(q.Vars) != len(call.Args) {
+				f.errorf("site %q use %s: lemma takes %d arguments", s.Pattern, lm.Name, len(q.Vars))
+				continue
+			}
+			ce := f.cenv(lookup, st.heap, f.entrySt.heap)
+			lenv := &CEnv{u: f.u, pkg: f.u.eng.typesPkgByPath(lm.Pkg), heap: st.heap, old: f.entrySt.heap, bound: map[string]CVal{}}
+			bad := false
+			for i, v := range q.Vars {
+				av, err := ce.evalAny(call.Args[i])
+				if err != nil {
+					f.errorf("site %q use %s arg %d: %v", s.Pattern, lm.Name, i, err)
+					bad = true
+					break
+				}
+				func() {
+					defer func() {
+						if r := recover(); r != nil {
+							f.errorf("site %q use %s arg %d: %v", s.Pattern, lm.Name, i, r)
+							bad = true
+						}
+					}()
+					vt := lenv.resolveType(v.T)
+					av = lenv.coerce(av, vt)
+					if av.T.Sort != f.u.te.sortOf(vt) {
+						efail("sort %s, want %s", av.T.Sort, f.u.te.sortOf(vt))
+					}
+					av.Ty = vt
+					lenv.bound[v.Name] = av
+				}()
+			}
+			if bad {
+				continue
+			}
+			t, err := lenv.evalBool(q.Body)
+			if err != nil {
+				f.errorf("site %q use %s: %v", s.Pattern, lm.Name, err)
+				continue
+			}
+			f.u.assume(st.reach, t)
+			f.u.usedAssumes = append(f.u.usedAssumes, "lemma "+lm.Name+" (proved separately), instantiated at "+s.Pattern)
+		case "ghost":
+			g := s.Ghost[act.Idx]
 			ce := f.cenv(lookup, st.heap, f.entrySt.heap)
 			v, err := ce.evalAny(g.Val.E)
 			if err != nil {
@@ -1097,6 +1158,7 @@ func (f *Frame) siteHook(kind string, ins ssa.Instruction, st *State, extra map[
 			}
 			v = ce.coerce(v, gt)
 			st.heap["Gh_"+g.Name] = f.u.freshDef("gh", v.T)
+		}
 		}
 	}
 }
